@@ -264,6 +264,8 @@ func runJob(j job) string {
 		return boxPipeline(j.data)
 	case "C":
 		return countJob(j.data, j.cfg == "S")
+	case "Q":
+		return sencJob(j.data, j.cfg)
 	}
 	return "badjob"
 }
@@ -426,6 +428,9 @@ func runChunk(jobs []job, res []string, lo, hi int) {
 			}
 			if jobs[k].kind == "C" {
 				res[k] = c + "\t-1\t0"
+			}
+			if jobs[k].kind == "Q" {
+				res[k] = c + "\t-\t0\t0\t0"
 			}
 			rstats.Lock()
 			rstats.restarts++
